@@ -44,7 +44,8 @@ class World:
                        "windowed_transform_query", "query_inside_units_context", "same_numbers_under_different_units",
                        "numerical_spectral_density_operand", "matrix_filled_inside_units_context",
                        "temperatures_differing_by_less_than_a_percent", "composite_from_a_list_of_parameter_sets",
-                       "mixed_temperature_density_converted_without_temperature", "value_defined_function_built_under_units"]
+                       "mixed_temperature_density_converted_without_temperature", "value_defined_function_built_under_units",
+                       "measured_before_and_after_public_addition"]
     required_faults = ["different_temperature", "different_axis"]
     components = {
         "real": ["CorrelationFunction / SpectralDensity constructors, __add__, __iadd__, add_to_data(2), copy",
@@ -396,6 +397,14 @@ class Runner:
         A, B = self.pool[a], self.pool[b]
         same_axis = AXGROUP[A.axis] == AXGROUP[B.axis]
         same_T = (A.kind != "cf") or (A.T == B.T)
+
+        def measurable(E):
+            return (E.kind == "cf" and E.axis in (0, 1) and all(c[0] == "spec" and c[1]["ftype"].startswith("Overdamped") for c in E.comps)
+                    and max(c[1]["cortime"] for c in E.comps) * 8 <= self.axes[0].max)
+        if measurable(A):
+            # the function is measured before it grows (and again afterwards, below)
+            with self.qr.energy_units("int"):
+                A.real.measure_reorganization_energy()
         try:
             A.real.add_to_data(B.real)
             raised = None
@@ -409,6 +418,13 @@ class Runner:
         if raised is not None:
             raise Violation("addition-raises", "op %d: add_to_data: %s" % (i, raised))
         A.comps = list(A.comps) + list(B.comps)
+        if measurable(A):
+            with self.qr.energy_units("int"):
+                m = A.real.measure_reorganization_energy()
+            lamb = self.expected(A)[1]
+            check(abs(m - lamb) <= 4e-3 * abs(lamb), "measured-reorganisation-energy",
+                  lambda: "op %d: entry #%d measured %r after add_to_data, declared %r" % (i, a, m, lamb))
+            self.ctx.probe("measured_before_and_after_public_addition")
         self.ctx.probe("public_add_to_data")
         self.ctx.ev(i, "pubadd", a, b)
         self.ctx.cov("pubadd", A.kind, min(len(A.comps), 4))
